@@ -62,7 +62,7 @@ func replaceFirst(b []byte, old, new string) []byte {
 
 func genNeighbour(g *lp.Gen, client bool) (string, []byte) {
 	if client {
-		switch g.Intn(9) {
+		switch g.Intn(11) {
 		case 0: // empty reason phrase (RFC 7230: reason-phrase may be empty)
 			m := simpleResp(g)
 			m.C = ""
@@ -70,13 +70,36 @@ func genNeighbour(g *lp.Gen, client bool) (string, []byte) {
 		case 1: // no SP after the status code (not RFC, accepted by net/http)
 			m := simpleResp(g)
 			return "resp-no-reason-sp", follow(g, client, replaceFirst(m.Render(), "200 OK", "200"))
-		case 2: // 304/204/1xx with Content-Length: no body follows
+		case 2: // RFC 7230 3.3.3 rule 1: a 1xx / 204 / 304 response ends with its header section whatever the framing fields say
 			m := simpleResp(g)
-			m.B = g.Pick("304", "204", "100")
+			m.B = g.Pick("304", "304", "204", "100", "101", "199")
 			m.C = "X"
 			m.Fixed = ""
-			m.Headers = []Hdr{{"Content-Length", 1, strconv.Itoa(1 + g.Intn(30))}}
-			return "resp-bodiless-status-with-cl", follow(g, client, m.Render())
+			if g.Chance(2, 3) {
+				m.Headers = []Hdr{{"Content-Length", 1, strconv.Itoa(g.PickInt(0, 1, 5, 1+g.Intn(30), 100000))}}
+			} else {
+				m.Headers = []Hdr{{"Transfer-Encoding", 1, "chunked"}}
+			}
+			if g.Chance(1, 2) {
+				m.Headers = append(m.Headers, Hdr{"Etag", 1, "\"x\""})
+			}
+			m.Kind = 'n'
+			class := "resp-304-with-framing" // a server MAY send these (3.3.1, 3.3.2)
+			if m.B != "304" {
+				class = "resp-1xx-204-with-framing" // a server MUST NOT; the reading rule is the same
+			}
+			return class, append(m.Render(), simpleResp(g).Render()...)
+		case 9: // RFC 7230 3.3.3 rule 1: the response to a HEAD request ends with its header section (request context: HEAD)
+			m := simpleResp(g)
+			m.B = g.Pick("200", "200", "404", "301")
+			m.Fixed = ""
+			if g.Chance(2, 3) {
+				m.Headers = []Hdr{{"Content-Length", 1, strconv.Itoa(g.PickInt(1, 5, 1+g.Intn(30), 100000))}}
+			} else {
+				m.Headers = []Hdr{{"Transfer-Encoding", 1, "chunked"}}
+			}
+			m.Kind = 'n'
+			return "resp-head-with-framing", append(m.Render(), simpleResp(g).Render()...)
 		case 3: // no framing at all: body delimited by EOF
 			m := simpleResp(g)
 			m.Headers = []Hdr{{"X-A", 1, "b"}}
